@@ -3,11 +3,11 @@
 (* history of operations of the family's alphabet up to the bound, applying Container's   *)
 (* Apply; a state at the bound is printed with the results and the heap the specification *)
 (* demands and replayed on the generated container linked with the real runtime library.  *)
-EXTENDS Container, Json
+EXTENDS Container, Merge, Json
 
 CONSTANTS Family, MaxHist
-VARIABLES cfg0, st, hist
-vars == <<cfg0, st, hist>>
+VARIABLES cfg0, files0, st, hist
+vars == <<cfg0, files0, st, hist>>
 
 Fx == <<[n |-> "fx", v |-> "probe.test/fx"]>>
 Fns == <<[n |-> "fn", v |-> "fx.Fn"], [n |-> "fnInt", v |-> "fx.FnInt"], [n |-> "fnE", v |-> "fx.FnE"]>>
@@ -117,37 +117,135 @@ ScopeCfgs(S) == {c \in {ScopeCfg(S, refs, sc) : refs \in [S -> SUBSET S], sc \in
 ScopeOps(S) == {OpGet(s) : s \in S} \cup {OpGetInContext(c, s) : c \in {1, 2}, s \in S} \cup {OpGetTaggedBy("t1")}
 
 -----------------------------------------------------------------------------
+(* Family "tags" (C04): three tagged services with every assignment of priorities (ties,  *)
+(* negative, large), a consumer of both tags, decorator sequences that exercise           *)
+(* declaration order, and the configuration split over one to three files (tags and       *)
+(* decorators are appended in file order).                                                *)
+Absent == 999999
+TagPrios == IF Family = "tagsq" THEN {Absent, 0, 7} ELSE {Absent, -5, 0, 7, 2147483647}
+TagCfg(pr, t2, decs) ==
+  [EmptyCfg EXCEPT !.meta = BaseMeta, !.params = ("p1" :> ALit("int", "5")),
+     !.services =
+       [s \in {"s1", "s2", "s3"} |->
+          [CtorSvc(IF s = "s1" THEN "fx.NewA" ELSE IF s = "s2" THEN "fx.NewB" ELSE "fx.NewC", <<>>) EXCEPT
+             !.tags = (IF s \in t2 /\ s = "s3" THEN <<Tag("t2", 0)>> ELSE <<>>)       \* s3 lists t2 first, s2 lists it last
+                   \o (IF pr[s] # Absent THEN <<Tag("t1", pr[s])>> ELSE <<>>)
+                   \o (IF s \in t2 /\ s # "s3" THEN <<Tag("t2", 0)>> ELSE <<>>)]]
+       @@ ("s4" :> CtorSvc("fx.NewD", <<>>) @@ "c1" :> CtorSvc("fx.NewZ", <<ATagged("t1"), ATagged("t2")>>)),
+     !.decorators = decs]
+DecSeqs ==
+  << <<>>,
+     <<Dec("t1", "fx.Decorate", <<AStr("a")>>)>>,
+     <<Dec("t1", "fx.Decorate", <<ASvc("s4")>>), Dec("t1", "fx.DecorateB", <<ARef("p1")>>)>>,
+     <<Dec("t1", "fx.Decorate", <<AStr("a")>>), Dec("t2", "fx.DecorateB", <<AStr("b")>>), Dec("t1", "fx.DecorateC", <<AStr("c")>>)>>,
+     <<Dec("t2", "fx.Decorate", <<AStr("z")>>), Dec("t1", "fx.Decorate", <<AStr("a")>>), Dec("t2", "fx.Decorate", <<AStr("y")>>)>>,
+     <<Dec("t1", "fx.Decorate", <<AStr("a")>>), Dec("t1", "fx.Decorate", <<ARef("p1")>>)>>,
+     <<Dec("t2", "fx.Decorate", <<ATagged("t1")>>)>>,
+     <<Dec("t1", "fx.Decorate", <<ALit("int", "1"), ASvc("s4"), ASelf>>)>> >>
+
+(* ways of spreading a configuration over files *)
+TagsTail(c) == [s \in {x \in DOMAIN c.services : Len(c.services[x].tags) >= 2} |->
+                  [EmptySvc EXCEPT !.tags = Tail(c.services[s].tags)]]
+TagsHead(c) == [s \in DOMAIN c.services |->
+                  [c.services[s] EXCEPT !.tags = IF Len(@) >= 2 THEN <<Head(@)>> ELSE @]]
+SplitFiles(c, k) ==
+  LET n == Len(c.decorators)  h == (n + 1) \div 2 IN
+  CASE k = 1 -> <<c>>
+    [] k = 2 -> << [c EXCEPT !.decorators = SubSeq(c.decorators, 1, h), !.services = TagsHead(c)],
+                   [EmptyCfg EXCEPT !.decorators = SubSeq(c.decorators, h + 1, n), !.services = TagsTail(c)] >>
+    [] k = 3 -> << [c EXCEPT !.decorators = <<>>, !.services = TagsHead(c)],
+                   [EmptyCfg EXCEPT !.decorators = SubSeq(c.decorators, 1, IF n >= 1 THEN 1 ELSE 0)],
+                   [EmptyCfg EXCEPT !.decorators = SubSeq(c.decorators, 2, n), !.services = TagsTail(c)] >>
+
+TagFileSets ==
+  {SplitFiles(TagCfg(pr, t2, DecSeqs[d]), k) :
+      pr \in [{"s1", "s2", "s3"} -> TagPrios], t2 \in SUBSET {"s2", "s3"}, d \in 1..Len(DecSeqs), k \in 1..3}
+TagScript == <<OpGetTaggedBy("t1"), OpGetTaggedBy("t2"), OpGet("c1"), OpGet("s1"), OpGetTaggedBy("t1")>>
+
+-----------------------------------------------------------------------------
+(* Family "todo" (C15): every subset of {p1, p2, s1, s2} marked todo, all histories over   *)
+(* GetParam / Get / OverrideParam / OverrideService.  p3 is a function parameter whose     *)
+(* invocations are counted (lazy evaluation).                                             *)
+TodoCfg(tp1, tp2, ts1, ts2) ==
+  [EmptyCfg EXCEPT !.meta = BaseMeta,
+     !.params = (   "p1" :> (IF tp1 THEN APat(<<CFn("todo", "")>>) ELSE ALit("int", "5"))
+                 @@ "p2" :> (IF tp2 THEN APat(<<CFn("todo", "\"in development\"")>>) ELSE APat(<<CRef("p1"), CText("-x")>>))
+                 @@ "p3" :> APat(<<CFn("fn", "\"a\"")>>)
+                 @@ "p4" :> ARef("p1")),                           \* an alias: exactly one reference
+     !.services = (   "s1" :> (IF ts1 THEN [EmptySvc EXCEPT !.todo = "true"]
+                               ELSE CtorSvc("fx.NewA", <<ARef("p1"), ASvc("s2"), ARef("p3")>>))
+                   @@ "s2" :> (CASE ts2 = "no"    -> CtorSvc("fx.NewB", <<ARef("p2")>>)
+                                 [] ts2 = "bare"  -> [EmptySvc EXCEPT !.todo = "true"]
+                                 [] ts2 = "typed" -> [EmptySvc EXCEPT !.todo = "true", !.type = "*fx.T"]     \* attributes of a todo service are inert
+                                 [] ts2 = "ctor"  -> [CtorSvc("fx.NewB", <<ARef("p2")>>) EXCEPT !.todo = "true", !.scope = "non_shared"]))]
+TodoCfgs == {TodoCfg(a, b, c, d) : a \in BOOLEAN, b \in BOOLEAN, c \in BOOLEAN, d \in {"no", "bare", "typed", "ctor"}}
+TodoOps == {OpGetParam("p1"), OpGetParam("p2"), OpGetParam("p4"), OpGet("s1"), OpGet("s2"),
+            OpOverrideParam("p1", "int", "9"), OpOverrideParam("p2", "string", "ov"),
+            OpOverrideService("s2", "NewZ", <<ARef("p1")>>), OpOverrideService("s1", "NewD", <<ASvc("s2")>>)}
+
+-----------------------------------------------------------------------------
 Configs ==
   CASE Family = "build"  -> {BuildCfg(v) : v \in {x \in PairVectors : LegalVec(x) /\ Determined(x)}}
     [] Family = "scope2" -> ScopeCfgs({"s1", "s2"})
     [] Family = "scope3" -> ScopeCfgs({"s1", "s2", "s3"})
+    [] Family = "todo"   -> TodoCfgs
+    [] OTHER -> {}
 
-Scripted == Family \in {"build"}
-Script == BuildScript
+NoFl == [ignoreP |-> FALSE, ignoreS |-> FALSE]
+FileSets ==
+  CASE Family \in {"tags", "tagsq"} -> {f \in TagFileSets : OutputAccepted(MergeAll(f), NoFl)}
+    [] OTHER -> {<<c>> : c \in Configs}
+
+Scripted == Family \in {"build", "tags", "tagsq"}
+Script == IF Family = "build" THEN BuildScript ELSE TagScript
 Alphabet(c) ==
   CASE Family = "scope2" -> ScopeOps({"s1", "s2"})
     [] Family = "scope3" -> ScopeOps({"s1", "s2", "s3"})
+    [] Family = "todo"   -> TodoOps
     [] OTHER -> {}
 
 Bound == IF Scripted THEN Len(Script) ELSE MaxHist
 
-Init == \E c \in Configs : cfg0 = c /\ st = NewState(c) /\ hist = <<>>
+Init == \E f \in FileSets : files0 = f /\ cfg0 = MergeAll(f) /\ st = NewState(MergeAll(f)) /\ hist = <<>>
 
 Do(o) == LET r == Apply(st, o) IN
          /\ st' = r.st
          /\ hist' = Append(hist, [op |-> o, ok |-> r.ok, v |-> r.v, err |-> r.err])
-         /\ UNCHANGED cfg0
+         /\ UNCHANGED <<cfg0, files0>>
 
 Next == /\ Len(hist) < Bound
         /\ IF Scripted THEN Do(Script[Len(hist) + 1]) ELSE \E o \in Alphabet(cfg0) : Do(o)
 
-Emit == Len(hist) = Bound => PrintT(<<"ST", ToJson([cfg |-> cfg0, hist |-> hist, heap |-> st.heap, cnt |-> st.cnt])>>)
+Emit == Len(hist) = Bound => PrintT(<<"ST", ToJson([cfg |-> cfg0, files |-> files0, hist |-> hist, heap |-> st.heap, cnt |-> st.cnt])>>)
 
 -----------------------------------------------------------------------------
 (* R1: design-level invariants of the run-time semantics.                                *)
+(* the tagged collection is ordered by priority descending, then by name ascending, and    *)
+(* contains exactly the services carrying the tag                                          *)
+TaggedSorted ==
+  \A t \in {"t1", "t2"} :
+     LET o == TaggedOrder(cfg0, t) IN
+     /\ {o[i] : i \in 1..Len(o)} = {s \in SvcNames(cfg0) : t \in SvcTags(cfg0.services[s])}
+     /\ \A i \in 1..(Len(o) - 1) :
+           \/ TagPrio(cfg0, o[i], t) > TagPrio(cfg0, o[i + 1], t)
+           \/ (TagPrio(cfg0, o[i], t) = TagPrio(cfg0, o[i + 1], t) /\ NameLt(o[i], o[i + 1]))
+(* spreading a configuration over files the documented way does not change what is merged  *)
+SplitInvariant == \A k \in 1..3 : SameCfg(MergeAll(SplitFiles(cfg0, k)), cfg0)
+(* C15: a todo parameter / service always fails until it is overridden; a parameter        *)
+(* function is never invoked before its parameter (or a dependant) is first used           *)
+TodoFails ==
+  \A i \in 1..Len(hist) :
+     LET o == hist[i].op
+         overridden == \E j \in 1..(i - 1) : hist[j].op.id = o.id /\ hist[j].op.op \in {"OverrideParam", "OverrideService"} IN
+     /\ (o.op = "Get" /\ IsTodo(cfg0.services[o.id]) /\ ~overridden) => ~hist[i].ok
+     /\ (o.op = "GetParam" /\ cfg0.params[o.id].k = "pat" /\ cfg0.params[o.id].ch[1].k = "fn"
+          /\ cfg0.params[o.id].ch[1].v = "todo" /\ ~overridden) => ~hist[i].ok
+LazyParams == hist = <<>> => st.cnt = Empty /\ st.pcache = Empty
+
 (* a shared service has at most one instance for the life of the container               *)
+NoOverride == \A i \in 1..Len(hist) : hist[i].op.op # "OverrideService"
 SharedOnce ==
-  \A i, j \in 1..Len(hist) :
+  NoOverride => \A i, j \in 1..Len(hist) :
      (hist[i].op.op \in {"Get", "GetInContext"} /\ hist[j].op.op \in {"Get", "GetInContext"}
       /\ hist[i].op.id = hist[j].op.id /\ hist[i].ok /\ hist[j].ok
       /\ EffScope(cfg0, hist[i].op.id) = "shared" /\ hist[i].v.k = "obj" /\ hist[j].v.k = "obj")
